@@ -46,6 +46,10 @@ func compareReaderModel(rep *Report, pool *DriverPool, c interface{}, dict, deli
 		rep.Count("rmodel:skipped-too-large")
 		return
 	}
+	if !modelTimeLeft() {
+		rep.Count("rmodel:skipped-time-budget")
+		return
+	}
 	if modelTier != "thorough" && len(delivered) > 3000 {
 		// quick tier: every small input, one in twelve of the larger ones (chosen by content)
 		h := uint32(len(delivered))
@@ -141,7 +145,7 @@ func (p *DriverPool) ModelC(api string, multi bool, dict []byte, hasDict bool, i
 // corruptions/truncations of them (so fastgo's inflater must agree with the reference inflater on the
 // verdict); the error of the first failing layer is compared by kind.
 func compareContainerModel(rep *Report, pool *DriverPool, c interface{}, api string, multi bool, dict []byte, hasDict bool, in []byte, o *RObs, left int) {
-	if pool == nil || o.Panic != "" || o.Hang || len(in) > 200000 {
+	if pool == nil || o.Panic != "" || o.Hang || len(in) > 200000 || !modelTimeLeft() {
 		return
 	}
 	m, err := pool.ModelC(api, multi, dict, hasDict, in)
@@ -198,12 +202,14 @@ func compareEngine(rep *Report, pool *DriverPool, c interface{}, stream []byte, 
 	if pool == nil || o.Panic != "" || o.Hang || o.CtorErr != "" || len(o.ReadLog) == 0 || len(o.ReadLog) >= 60000 || len(o.SrcLog) >= 200000 {
 		return
 	}
-	if modelTier != "thorough" {
-		cost := len(o.Bytes) + 40*len(o.ReadLog) + 20*len(o.SrcLog)
-		if cost > 120000 {
-			rep.Count("engine:skipped-too-large")
-			return
-		}
+	if !modelTimeLeft() {
+		rep.Count("engine:skipped-time-budget")
+		return
+	}
+	cost := len(o.Bytes) + 40*len(o.ReadLog) + 20*len(o.SrcLog)
+	if (modelTier != "thorough" && cost > 120000) || cost > 1500000 {
+		rep.Count("engine:skipped-too-large")
+		return
 	}
 	delivered := stream
 	if sp.Term == "err" && sp.After >= 0 && sp.After < len(stream) {
